@@ -133,6 +133,7 @@ pub struct Rig {
     pub delivered: Vec<Vec<Block>>, // blocks read from each node's commit channel
     pub raw_hook_events: usize,
     pub panics: Vec<String>,
+    pending_qc: HashMap<(usize, Digest), VecDeque<bool>>,
 }
 
 pub fn port_of(addr: &SocketAddr) -> (usize, Port) {
@@ -350,6 +351,7 @@ impl Rig {
             events: Vec::new(),
             raw_hook_events: 0,
             panics: Vec::new(),
+            pending_qc: HashMap::new(),
         };
         for i in 0..rig.cfg.n {
             if rig.cfg.real[i] {
@@ -657,7 +659,14 @@ impl Rig {
                     (_, "Propose") => {
                         let id = self.blk_id_from_desc(&e["b"]);
                         let qc = self.abs_qc(&e["b"]["qc"]);
-                        ("Propose", json!({"blk":id,"tc":self.abs_tc(&e["b"]["tc"]), "qc": qc, "tcfull": self.abs_tc_full(&e["b"]["tc"]), "npayload": e["b"]["payload"].as_array().map(|a| a.len()).unwrap_or(0)}))
+                        let mut input = json!({"blk":id,"tc":self.abs_tc(&e["b"]["tc"]), "qc": qc, "tcfull": self.abs_tc_full(&e["b"]["tc"]), "npayload": e["b"]["payload"].as_array().map(|a| a.len()).unwrap_or(0)});
+                        let dg = hex_digest(e["b"]["id"].as_str().unwrap());
+                        if let Some(q) = self.pending_qc.get_mut(&(n, dg)) {
+                            if let Some(ok) = q.pop_front() {
+                                input["qc_ok"] = json!(ok);
+                            }
+                        }
+                        ("Propose", input)
                     }
                     (_, "Vote") => {
                         let id = self.blk_id_from_hex(e["v"]["hash"].as_str().unwrap(), e["v"]["round"].as_i64().unwrap_or(i64::MAX));
@@ -779,6 +788,9 @@ impl Rig {
                 Err(_) => return replies,
             }
         }
+        if f.port == Port::Consensus {
+            self.note_propose(f.to, &f.data);
+        }
         let sent = self.conns[ci]
             .to_dest
             .as_mut()
@@ -861,6 +873,9 @@ impl Rig {
                 Err(_) => return false,
             }
         }
+        if port == Port::Consensus {
+            self.note_propose(to, &data);
+        }
         let ok = matches!(
             self.inject
                 .get_mut(&(to, port))
@@ -887,6 +902,27 @@ impl Rig {
             }
         }
         ok
+    }
+
+    /// Every proposal that travels to a real node is inspected by the harness: is the QC it carries the exact genesis QC, or a
+    /// certificate of the parent's round that verifies under the committee (the QC's own `verify`, called here, outside the node)?
+    /// The verdict is attached to the node's handler record of that delivery (`in.qc_ok`); the C05 monitor requires that a block whose
+    /// processing triggers a commit reached the node with a valid certificate at least once.  (Block::digest does not cover the QC's
+    /// round and votes, so a forged copy and a genuine copy of a block share the digest: the verdict is per delivery, not per block.)
+    fn note_propose(&mut self, to: usize, data: &[u8]) {
+        if let Ok(ConsensusMessage::Propose(b)) = bincode::deserialize::<ConsensusMessage>(data) {
+            let exact_genesis = b.qc.hash == Digest::default() && b.qc.round == 0 && b.qc.votes.is_empty();
+            let parent_round_ok = match self.dict.id_of_digest(&b.qc.hash) {
+                Some(0) => b.qc.round == 0,
+                Some(id) => {
+                    let r = self.dict.info_of(id)["round"].as_i64().unwrap_or(-1);
+                    r < 0 || r as u64 == b.qc.round
+                }
+                None => true,
+            };
+            let ok = exact_genesis || (parent_round_ok && b.qc.verify(&self.committee).is_ok());
+            self.pending_qc.entry((to, b.digest())).or_default().push_back(ok);
+        }
     }
 
     pub fn inject_msg(&mut self, to: usize, m: &ConsensusMessage) -> bool {
